@@ -159,8 +159,14 @@ class Ref:
     def status_fields(self, k):
         co = self.slots.get(k)
         if co is None:
-            return ["dead", 0, "true", "false"]
-        return [co.status, len(co.store), "true", "true" if co.reg else "false"]
+            return ["dead", 0, "true", "false", "nil"]
+        # who resumed it: the coroutine below it on the call stack (nil: the main program, or not active)
+        prev = "nil"
+        if k in self.active:
+            i = self.active.index(k)
+            if i > 0:
+                prev = "c%d" % self.active[i - 1]
+        return [co.status, len(co.store), "true", "true" if co.reg else "false", prev]
 
     # ---- one command
     def step(self, idx, words):
@@ -249,7 +255,7 @@ class Ref:
         elif c == "status":
             k = a[0]
             if k == -1:
-                self.here("status", "normal" if self.active else "running", 0, "true", "false")
+                self.here("status", "normal" if self.active else "running", 0, "true", "false", "nil")
             else:
                 self.here("status", *self.status_fields(k))
         elif c == "isyieldable":
